@@ -13,7 +13,7 @@ EXPLANATION = (
     'differently otherwise); R10.d the bridge obtains one bincode configuration, with fixed-width integers, for both '
     'directions; R10.e every register_types registers Self, Self::Output and at least today\'s hand-registered types, and '
     'generated Export impls call register_types of every non-skipped operation. Does not decide agreement of schema and '
-    'bytes per value, nor the generated foreign code. R10.f TypeGen obtains its registry through the checked Tracer::registry() and propagates its error.')
+    'bytes per value, nor the generated foreign code. R10.f TypeGen obtains its registry through the checked Tracer::registry() and propagates its error. R10.g each bridge entry point hands the bincode serializer a Vec created empty in that call, gives it to nothing else and returns it: no byte of another (failed) serialisation can precede a message.')
 
 WIRE_CRATES = ['crux_core', 'crux_http', 'crux_kv', 'crux_time', 'crux_platform']
 
@@ -188,6 +188,7 @@ def check(ctx, rep):
     rep.rule('R10.b', 'every serde attribute on a wire type is in the neutrality table; Serialize/Deserialize are derived', floor=15)
     rep.rule('R10.c', 'in an enum that derives Serialize and Deserialize no serde-skipped variant precedes a non-skipped one', floor=8)
     rep.rule('R10.d', 'the bincode bridge uses one options value, with fixint encoding, for the deserializer and the serializer', floor=5)
+    rep.rule('R10.g', 'each bridge entry point serialises into a buffer created empty in that call and returns exactly that buffer', floor=3)
     rep.rule('R10.e', 'register_types registers Self, Self::Output and the hand-listed types; generated Export impls register every operation', floor=6)
 
     check_checked_registry(ctx, rep)
@@ -304,6 +305,11 @@ def check(ctx, rep):
             rep.ok('R10.c', p, 'skipped variants (if any) are last')
 
     check_codec(ctx, rep)
+    _core = ctx.crate('default', 'crux_core')
+    if _core is not None:
+        check_output_buffers(rep, 'R10.g', _core)
+    else:
+        rep.missing('R10.g', 'crux_core facts')
     check_registration(ctx, rep, ops, probe)
     controls(ctx, rep)
     rep.assume('serde_derive 1.0.219 numbering (Serialize: declaration index; Deserialize: index among non-skipped variants), read in its source')
@@ -311,19 +317,19 @@ def check(ctx, rep):
     rep.assume('serde-reflection traces String/Vec/Option/Box/serde_bytes as bincode encodes them')
 
 
-def check_codec(ctx, rep):
+def check_codec(ctx, rep, rid='R10.d'):
     core = ctx.crate('default', 'crux_core')
     # the options function: the only function in crux_core whose body calls into bincode's config builders
     opt_fns = [f for f in core.built if list(f.calls('bincode::config::Options::with_fixint_encoding',
                                                      'bincode::config::DefaultOptions::new'))]
     if len(opt_fns) != 1:
-        rep.bad('R10.d', 'options-fn', 'expected exactly one function building bincode options, found %s' % [f.path for f in opt_fns])
+        rep.bad(rid, 'options-fn', 'expected exactly one function building bincode options, found %s' % [f.path for f in opt_fns])
         return
     of = opt_fns[0]
     chain = [norm(t.get('callee') or '') for _, t in of.calls() if (t.get('callee') or '').startswith('bincode::')]
     names = [last_seg(c) for c in chain]
     forbidden = [n for n in names if n in ('with_varint_encoding', 'with_big_endian', 'with_native_endian', 'with_limit')]
-    rep.expect('R10.d', 'with_fixint_encoding' in names and not forbidden, '%s|chain' % of.kpath,
+    rep.expect(rid, 'with_fixint_encoding' in names and not forbidden, '%s|chain' % of.kpath,
                'option chain %s: fixint, little-endian (default), no limit' % names,
                'option chain of %s is %s: must contain with_fixint_encoding and none of varint/big-endian/native-endian/limit' % (of.path, names))
     # every use of a bincode (de)serializer in crux_core takes its options from that function
@@ -340,15 +346,15 @@ def check_codec(ctx, rep):
                 # a byte limit does not change the encoding
                 srcs = origins(f, opt, extra_identity=[('bincode::config::Options::with_limit', 0)])
                 ok = bool(srcs) and all(o.kind == 'call' and path_matches(o.term.get('callee'), norm(of.path)) for o in srcs)
-                rep.expect('R10.d', ok, '%s|%s' % (f.kpath, seg + ('-de' if 'Deserializer' in c else '-ser')),
+                rep.expect(rid, ok, '%s|%s' % (f.kpath, seg + ('-de' if 'Deserializer' in c else '-ser')),
                            'options come from %s' % of.name,
                            '%s builds a bincode %s with options not obtained from %s' % (f.where(bb), seg, of.path))
             elif seg in ('with_limit',):
                 continue
             else:
-                rep.bad('R10.d', '%s|%s' % (f.kpath, c), 'second codec entry point: %s calls %s' % (f.where(bb), c))
+                rep.bad(rid, '%s|%s' % (f.kpath, c), 'second codec entry point: %s calls %s' % (f.where(bb), c))
     if users < 5:
-        rep.bad('R10.d', 'users', 'expected 5 bincode (de)serializer constructions in the bridge, found %d' % users)
+        rep.bad(rid, 'users', 'expected 5 bincode (de)serializer constructions in the bridge, found %d' % users)
     # per function, deserializer and serializer share one options value
     for f in core.built:
         sites = [(bb, t) for bb, t in f.calls() if norm(t.get('callee') or '').startswith('bincode::') and f is not of]
@@ -359,9 +365,52 @@ def check_codec(ctx, rep):
                     continue
                 for o in origins(f, t['args'][-1], extra_identity=[('bincode::config::Options::with_limit', 0)]):
                     calls.add(o.bb if o.kind == 'call' else None)
-            rep.expect('R10.d', len(calls) == 1 and None not in calls, '%s|one-options-value' % f.kpath,
+            rep.expect(rid, len(calls) == 1 and None not in calls, '%s|one-options-value' % f.kpath,
                        'deserializer and serializer share the result of one bincode_options() call',
                        'in %s the deserializer and the serializer do not share one options value' % f.path)
+
+
+def check_output_buffers(rep, rid, core):
+    """the bytes a bridge entry point returns are exactly what THIS call's serializer wrote: the writer handed to the bincode serializer is
+    a Vec created empty in the same call, nothing else writes to it, and it is what the call returns.  (A buffer kept between calls can
+    carry the bytes of a serialisation that failed half way into the next message, which then no longer decodes under the schema.)"""
+    n = 0
+    for f in core.built:
+        if f.j.get('exp') or '::bridge::' not in f.npath:
+            continue
+        for bb, t in f.calls('bincode::ser::Serializer::new'):
+            n += 1
+            key = '%s|fresh-output-buffer' % core.host_root(f)
+            src = origins(f, t['args'][0])
+            fresh = bool(src) and all(o.kind == 'call' and norm(o.term.get('callee') or '') in ('alloc::vec::Vec::new', 'alloc::vec::Vec::with_capacity')
+                                      and not o.suffix for o in src)
+            made = set(o.bb for o in src if o.kind == 'call')
+            once = fresh and len(made) == 1 and not any(f.in_cycle(b) for b in made)
+            # nothing else is given the buffer
+            others = []
+            if once:
+                for b2, t2 in f.calls():
+                    if b2 == bb:
+                        continue
+                    for a_ in t2.get('args') or []:
+                        if a_.get('o') == 'const':
+                            continue
+                        if any(o.kind == 'call' and o.bb in made and not o.suffix for o in origins(f, a_)):
+                            others.append(last_seg(t2.get('callee') or '?'))
+            # ... and the Ok payload of the return is that buffer
+            returned = False
+            if once:
+                pay = []
+                for o in origins(f, {'l': 0, 'p': []}):
+                    if o.kind == 'agg' and o.stmt['rv'].get('variant') == 'Ok':
+                        pay += origins(f, o.stmt['rv']['ops'][0])
+                returned = bool(pay) and all(o.kind == 'call' and o.bb in made and not o.suffix for o in pay)
+            rep.expect(rid, once and not others and returned, key, 'serialises into a Vec created in this call and returns it',
+                       '%s: the bytes returned are not exactly what this call serialised (writer created empty in this call: %s; also handed to: %s; '
+                       'returned as the Ok payload: %s): bytes of another serialisation can end up in the message'
+                       % (f.path, once, sorted(set(others)), returned))
+    if n < 3:
+        rep.bad(rid, 'serializer-sites', 'expected the 3 bincode serializer constructions of the bridge (process_event, handle_response, view), found %d' % n)
 
 
 # hand-registered types that register_types must keep (today's lists; may grow, not shrink)
